@@ -1,89 +1,172 @@
-//! C20 smoke test with the real `watch-fs` feature: a file change in a watched directory must
-//! lead to a rebuilt environment on the next acquire_env (the fs-watcher closure performs the same
-//! two critical sections as `request_reload`, see MJ.C20.fs_callback_is_request).
-//! Prints `wfs\t<name>\t<ok|FAIL|skip>\t<detail>` lines.  `skip` = file notifications do not work in
+//! C20 test with the real `watch-fs` feature (notify + inotify): every change to the content or to the
+//! set of files under a watched path must (a) be followed by an `on_should_reload` notification and
+//! (b) be reflected by the environment handed out by the next acquire_env — for every kind of change
+//! {write, create, delete, rename inside, rename OUT of the tree, rename INTO the tree, rename of a
+//! directory, atomic save (temp + rename over), move of the watched root} x {full, fast, persistent}.
+//! A touch (mtime only) must not be *required* to reload; it is only reported.
+//!
+//! Prints `wfs\t<case>\t<ok|FAIL|skip|info>\t<detail>` lines.  `skip` = file notifications do not work in
 //! this sandbox (checked with a raw `notify` watcher), nothing can be concluded.
-use minijinja::{path_loader, Environment};
+use minijinja::{path_loader, Environment, ErrorKind};
 use minijinja_autoreload::AutoReloader;
 use notify::Watcher;
+use std::fs;
+use std::path::{Path, PathBuf};
 use std::sync::atomic::{AtomicUsize, Ordering};
 use std::sync::Arc;
-use std::time::Duration;
+use std::time::{Duration, Instant};
+
+const NAMES: [&str; 7] = ["a.txt", "b.txt", "new.txt", "in.txt", "sub/c.txt", "sub2/c.txt", ".a.txt.tmp"];
 
 fn wait_until(ms: u64, mut f: impl FnMut() -> bool) -> bool {
-    let mut waited = 0;
-    while waited <= ms {
+    let t0 = Instant::now();
+    loop {
         if f() {
             return true;
         }
-        std::thread::sleep(Duration::from_millis(25));
-        waited += 25;
+        if t0.elapsed() > Duration::from_millis(ms) {
+            return false;
+        }
+        std::thread::sleep(Duration::from_millis(5));
     }
-    false
+}
+
+/// what the templates SHOULD be: the files under the watched path right now
+fn disk_state(w: &Path) -> Vec<String> {
+    NAMES.iter().map(|n| fs::read_to_string(w.join(n)).unwrap_or_else(|_| "<none>".into())).collect()
+}
+
+/// what the handed-out environment says they are
+fn env_state(env: &Environment) -> Vec<String> {
+    NAMES
+        .iter()
+        .map(|n| match env.get_template(n) {
+            Ok(t) => t.render(()).unwrap_or_else(|e| format!("<render {:?}>", e.kind())),
+            Err(e) if e.kind() == ErrorKind::TemplateNotFound => "<none>".into(),
+            Err(e) => format!("<error {:?}>", e.kind()),
+        })
+        .collect()
+}
+
+fn apply(op: &str, w: &Path, out: &Path) {
+    match op {
+        "write" => fs::write(w.join("a.txt"), "a2").unwrap(),
+        "create" => fs::write(w.join("new.txt"), "n1").unwrap(),
+        "delete" => fs::remove_file(w.join("b.txt")).unwrap(),
+        "rename-inside" => fs::rename(w.join("b.txt"), w.join("new.txt")).unwrap(),
+        "rename-out" => fs::rename(w.join("b.txt"), out.join("b.txt")).unwrap(),
+        "rename-in" => fs::rename(out.join("in.txt"), w.join("in.txt")).unwrap(),
+        "rename-dir" => fs::rename(w.join("sub"), w.join("sub2")).unwrap(),
+        "rename-dir-out" => fs::rename(w.join("sub"), out.join("sub")).unwrap(),
+        "atomic-save" => {
+            fs::write(w.join(".a.txt.tmp"), "a3").unwrap();
+            fs::rename(w.join(".a.txt.tmp"), w.join("a.txt")).unwrap();
+        }
+        "move-root" => fs::rename(w, out.join("moved-root")).unwrap(),
+        "touch" => {
+            let f = fs::OpenOptions::new().write(true).open(w.join("a.txt")).unwrap();
+            f.set_modified(std::time::SystemTime::now() - Duration::from_secs(1000)).unwrap();
+        }
+        _ => panic!("bad op"),
+    }
 }
 
 fn main() {
-    let dir = std::env::temp_dir().join(format!("c20wfs-{}", std::process::id()));
-    std::fs::create_dir_all(&dir).unwrap();
-    std::fs::write(dir.join("t.txt"), "one").unwrap();
+    let base: PathBuf = std::env::temp_dir().join(format!("c20wfs-{}", std::process::id()));
+    let _ = fs::remove_dir_all(&base);
+    fs::create_dir_all(&base).unwrap();
 
     // does the sandbox deliver file notifications at all?
     let raw = Arc::new(AtomicUsize::new(0));
     let r2 = raw.clone();
-    let mut w = notify::recommended_watcher(move |_res: notify::Result<notify::Event>| {
+    let mut rw = notify::recommended_watcher(move |_res: notify::Result<notify::Event>| {
         r2.fetch_add(1, Ordering::SeqCst);
     })
     .unwrap();
-    let raw_ok = w.watch(&dir, notify::RecursiveMode::Recursive).is_ok() && {
-        std::fs::write(dir.join("probe.txt"), "x").unwrap();
-        wait_until(2000, || raw.load(Ordering::SeqCst) > 0)
+    let raw_ok = rw.watch(&base, notify::RecursiveMode::Recursive).is_ok() && {
+        fs::write(base.join("probe.txt"), "x").unwrap();
+        wait_until(3000, || raw.load(Ordering::SeqCst) > 0)
     };
-    drop(w);
+    drop(rw);
     if !raw_ok {
-        println!("wfs\tfile-change-reloads\tskip\tno file notifications in this sandbox");
-        std::fs::remove_dir_all(&dir).ok();
+        println!("wfs\tall\tskip\tno file notifications in this sandbox");
+        fs::remove_dir_all(&base).ok();
         return;
     }
 
-    for (name, fast, persistent) in [("full", false, false), ("fast", true, false), ("persistent", false, true)] {
-        let calls = Arc::new(AtomicUsize::new(0));
-        let (c2, d2) = (calls.clone(), dir.clone());
-        std::fs::write(dir.join("t.txt"), "one").unwrap();
-        let reloader = AutoReloader::new(move |n| {
-            c2.fetch_add(1, Ordering::SeqCst);
-            let mut env = Environment::new();
-            env.set_loader(path_loader(&d2));
-            n.set_fast_reload(fast);
-            n.persistent_watch(persistent);
-            n.watch_path(&d2, true);
-            Ok(env)
-        });
-        let see = |r: &AutoReloader| r.acquire_env().unwrap().get_template("t.txt").unwrap().render(()).unwrap();
-        let first = see(&reloader);
-        let again = see(&reloader);
-        let c_before = calls.load(Ordering::SeqCst);
-        std::fs::write(dir.join("t.txt"), "two").unwrap();
-        let reloaded = wait_until(3000, || see(&reloader) == "two");
-        let c_after = calls.load(Ordering::SeqCst);
-        // second change: the watcher must still be armed after a reload (re-registered by the
-        // creator, kept by fast reload / persistent_watch)
-        std::fs::write(dir.join("t.txt"), "three").unwrap();
-        let reloaded2 = wait_until(3000, || see(&reloader) == "three");
-        let c_end = calls.load(Ordering::SeqCst);
-        let ok = first == "one" && again == "one" && c_before == 1 && reloaded && reloaded2
-            && if fast { c_end == 1 } else { c_after >= 2 && c_end >= 3 };
-        println!(
-            "wfs\tfile-change-reloads-{}\t{}\tfirst={} again={} creates={}/{}/{} reloaded={} second={}",
-            name, if ok { "ok" } else { "FAIL" }, first, again, c_before, c_after, c_end, reloaded, reloaded2
-        );
-        // dead notifier with watch-fs: no-ops, no panic
-        let n = reloader.notifier();
-        drop(reloader);
-        n.watch_path(&dir, true);
-        n.unwatch_path(&dir);
-        n.persistent_watch(true);
-        n.request_reload();
-        println!("wfs\tdead-notifier-watch-calls-{}\t{}\tis_dead={}", name, if n.is_dead() { "ok" } else { "FAIL" }, n.is_dead());
+    let ops = [
+        "write", "create", "delete", "rename-inside", "rename-out", "rename-in", "rename-dir", "rename-dir-out",
+        "atomic-save", "move-root", "touch",
+    ];
+    let mut case_no = 0;
+    for (mode, fast, persistent) in [("full", false, false), ("fast", true, false), ("persistent", false, true)] {
+        for op in ops {
+            case_no += 1;
+            let root = base.join(format!("case{}", case_no));
+            let (w, out) = (root.join("w"), root.join("out"));
+            fs::create_dir_all(w.join("sub")).unwrap();
+            fs::create_dir_all(&out).unwrap();
+            fs::write(w.join("a.txt"), "a1").unwrap();
+            fs::write(w.join("b.txt"), "b1").unwrap();
+            fs::write(w.join("sub/c.txt"), "c1").unwrap();
+            fs::write(out.join("in.txt"), "i1").unwrap();
+
+            let creates = Arc::new(AtomicUsize::new(0));
+            let (c2, w2) = (creates.clone(), w.clone());
+            let reloader = AutoReloader::new(move |n| {
+                c2.fetch_add(1, Ordering::SeqCst);
+                let mut env = Environment::new();
+                env.set_loader(path_loader(&w2));
+                n.set_fast_reload(fast);
+                n.persistent_watch(persistent);
+                n.watch_path(&w2, true);
+                Ok(env)
+            });
+            let notified = Arc::new(AtomicUsize::new(0));
+            let n2 = notified.clone();
+            reloader.notifier().set_on_should_reload_callback(move || {
+                n2.fetch_add(1, Ordering::SeqCst);
+            });
+            // load everything that exists (so that a stale cache is observable), twice: no reload in between
+            let before = env_state(&reloader.acquire_env().unwrap());
+            let again = env_state(&reloader.acquire_env().unwrap());
+            let quiet = before == disk_state(&w) && again == before && creates.load(Ordering::SeqCst) == 1;
+            // the reads above must not have produced notifications (access events are not requests)
+            std::thread::sleep(Duration::from_millis(30));
+            let n_before = notified.load(Ordering::SeqCst);
+
+            apply(op, &w, &out);
+            let got_note = wait_until(if op == "touch" { 300 } else { 5000 }, || notified.load(Ordering::SeqCst) > n_before);
+            // let the remaining events of the same change arrive (rename = From + To + Both)
+            std::thread::sleep(Duration::from_millis(40));
+            let want = disk_state(&w);
+            let after = env_state(&reloader.acquire_env().unwrap());
+            let reflected = after == want;
+            let c_after = creates.load(Ordering::SeqCst);
+            let reload_kind_ok = if fast { c_after == 1 } else { !got_note || c_after >= 2 };
+            let name = format!("{}-{}", op, mode);
+            let detail = format!(
+                "quiet-before={} notes-before={} notified={} reflected={} creates={} env={:?} disk={:?}",
+                quiet, n_before, got_note, reflected, c_after, after, want
+            );
+            if op == "touch" {
+                // not required to reload; must still be consistent
+                println!("wfs\t{}\t{}\t{}", name, if reflected && quiet { "info" } else { "FAIL" }, detail);
+            } else {
+                let ok = quiet && n_before == 0 && got_note && reflected && reload_kind_ok;
+                println!("wfs\t{}\t{}\t{}", name, if ok { "ok" } else { "FAIL" }, detail);
+            }
+            // dead notifier with watch-fs: no-ops, no panic
+            let n = reloader.notifier();
+            drop(reloader);
+            n.watch_path(&root, true);
+            n.unwatch_path(&root);
+            n.persistent_watch(true);
+            n.request_reload();
+            if !n.is_dead() {
+                println!("wfs\tdead-notifier-{}\tFAIL\tnotifier alive after its reloader was dropped", name);
+            }
+        }
     }
-    std::fs::remove_dir_all(&dir).ok();
+    fs::remove_dir_all(&base).ok();
 }
